@@ -94,6 +94,7 @@ inline uint32_t bits(float d) { uint32_t b; std::memcpy(&b, &d, 4); return b; }
 inline double reldiff(double a, double b, double floor_ = 0.0) {
     if (a == b) return 0.0;
     if (std::isnan(a) || std::isnan(b)) return (std::isnan(a) && std::isnan(b)) ? 0.0 : INFINITY;
+    if (std::isinf(a) || std::isinf(b)) return INFINITY;    // (inf - x) / inf would be NaN, and NaN > tol is false
     double d = std::fabs(a - b), m = std::max(std::fabs(a), std::fabs(b));
     if (m < floor_) m = floor_;
     return m > 0 ? d / m : d;
